@@ -193,11 +193,12 @@ type idReplay struct {
 	skipped  map[string]int
 	evals    int
 	distinct map[string]bool
-	crossAcc int // parts of perturbed blocks offered to the proposer's part set
-	crossN   int
+	crossN   int // parts of perturbed blocks offered to the proposer's part set
 	bi       *baseInfo
 	lost     bool // no instantiation realised the abstract state: wait for the next restore
 	visited  map[int]bool
+	kitSeed  int64 // the proposer's block is newKit(kitSeed, ..).block(sh, recover)
+	recover  uint32
 }
 
 // apply performs the abstract perturbation a on block b using concrete instantiation in;
@@ -443,7 +444,9 @@ func (r *idReplay) drift(key, format string, a ...interface{}) {
 		return
 	}
 	r.drifted[key] = true
-	r.c.Drift("identity: "+format, a...)
+	if _, dup := driftSeen.LoadOrStore("identity/"+key, true); !dup {
+		r.c.Drift("identity: "+format, a...)
+	}
 }
 
 // check compares the observation of a perturbed block with the model's state.
@@ -460,8 +463,14 @@ func (r *idReplay) check(b *types.Block, a idAct, st idState, in idInst, what st
 	partsChanged := !obs.Parts.Equals(r.obs0.Parts)
 	idChanged := hashChanged || partsChanged
 	rec := func(mismatch string) map[string]interface{} {
+		pert := ""
+		if nb, err := encodeBlock(b); err == nil {
+			pert = fmt.Sprintf("%x", nb)
+		}
 		return map[string]interface{}{
-			"behaviour": trace, "shape": r.sh.String(), "part_size": r.partSize, "instantiation": what,
+			"kind": "identity", "kit_seed": r.kitSeed, "shape_tuple": []int{r.sh.NTx, r.sh.NEv, r.sh.NPc}, "recover": r.recover, "action": a, "inst": map[string]interface{}{"leaf": in.leaf, "variant": in.variant, "path": in.path, "desc": in.desc},
+			"perturbed_block_hex": pert,
+			"behaviour":           trace, "shape": r.sh.String(), "part_size": r.partSize, "instantiation": what,
 			"base_block_hex": fmt.Sprintf("%x", r.base), "from_block_hex": fmt.Sprintf("%x", r.cur),
 			"model": st, "observed": map[string]interface{}{"hash": obs.Hash.String(), "parts": obs.Parts.String(),
 				"base_hash": r.obs0.Hash.String(), "base_parts": r.obs0.Parts.String(), "validate_basic": obs.VErr,
@@ -526,7 +535,6 @@ func (r *idReplay) crossOffer(b *types.Block, a idAct, what string, rec func(str
 		added, _, pan := safeAdd(recv, p)
 		r.crossN++
 		if added || pan != "" {
-			r.crossAcc++
 			key, how := "parts/otherblock/accepted", "was accepted by"
 			if pan != "" {
 				key, how = "parts/otherblock/panic", "crashed"
@@ -549,11 +557,12 @@ func firstLine(s string) string {
 
 // runIdentity replays the exported BlockId graph: one transition tour per seeded set of
 // proposer blocks (the sets run in parallel, each with its own generator).
-func runIdentity(c *core.Ctx, g *mbt.Graph, seed int64, blockSets int, maxInstDeep int) (behaviours, evals, distinct int, skipped map[string]int) {
+func runIdentity(c *core.Ctx, g *mbt.Graph, seed int64, blockSets int, maxInstDeep int) (behaviours, evals, distinct int, skipped map[string]int, cross int) {
 	skipped = map[string]int{}
 	distinctAll := map[string]bool{}
 	type result struct {
 		beh, evals int
+		cross      int
 		skipped    map[string]int
 		distinct   map[string]bool
 	}
@@ -577,6 +586,7 @@ func runIdentity(c *core.Ctx, g *mbt.Graph, seed int64, blockSets int, maxInstDe
 					return
 				}
 				res.evals += r.evals
+				res.cross += r.crossN
 			}
 		}(bi)
 	}
@@ -584,6 +594,7 @@ func runIdentity(c *core.Ctx, g *mbt.Graph, seed int64, blockSets int, maxInstDe
 	for _, res := range results {
 		behaviours += res.beh
 		evals += res.evals
+		cross += res.cross
 		for k, v := range res.skipped {
 			skipped[k] += v
 		}
@@ -591,7 +602,7 @@ func runIdentity(c *core.Ctx, g *mbt.Graph, seed int64, blockSets int, maxInstDe
 			distinctAll[k] = true
 		}
 	}
-	return behaviours, evals, len(distinctAll), skipped
+	return behaviours, evals, len(distinctAll), skipped, cross
 }
 
 // replay executes one behaviour of the BlockId graph; false = stop (infrastructure failure).
@@ -615,8 +626,9 @@ func (r *idReplay) replay(g *mbt.Graph, seq []int, seed int64, bi int, maxInstDe
 		case "start":
 			r.lost = false
 			r.sh = shape{st.Shape[0], st.Shape[1], st.Shape[2]}
-			r.kit = newKit(seed*1000+int64(bi)*37+int64(r.sh.NTx*100+r.sh.NEv*10+r.sh.NPc), maxInt(r.sh.NPc, 2))
-			blk := r.kit.block(r.sh, uint32(bi%2))
+			r.kitSeed, r.recover = seed*1000+int64(bi)*37+int64(r.sh.NTx*100+r.sh.NEv*10+r.sh.NPc), uint32(bi%2)
+			r.kit = newKit(r.kitSeed, maxInt(r.sh.NPc, 2))
+			blk := r.kit.block(r.sh, r.recover)
 			bz, err := encodeBlock(blk)
 			if err != nil {
 				c.Infra("identity: cannot encode the proposer's block: %v", err)
@@ -814,7 +826,8 @@ func headerFieldSurvey(c *core.Ctx, seed int64, modelFields map[string]bool) (ev
 				if exported {
 					c.Violate("identity/unchanged/hdr/content/Header."+name,
 						fmt.Sprintf("changing Header.%s (%s %s) changes neither Block.Hash() nor the part-set header", name, bl[li].path, d),
-						map[string]interface{}{"field": name, "leaf": bl[li].path, "perturbation": d, "block_hex": fmt.Sprintf("%x", bz), "part_size": partSize,
+						map[string]interface{}{"kind": "survey", "leaf_index": li, "variant": v,
+							"field": name, "leaf": bl[li].path, "perturbation": d, "block_hex": fmt.Sprintf("%x", bz), "part_size": partSize,
 							"hash": obs.Hash.String(), "parts": obs.Parts.String()})
 				}
 			}
